@@ -46,6 +46,15 @@ Theorem C15_spec_most_recent : forall c past a ch s e,
                     forall a', In a' p2 -> candidate c s k (jts (snd a)) a' = false.
 Proof. exact spec_most_recent. Qed.
 
+(* The output's fields: in the joined event built from a specified choice, "<source>.<field>" carries the value that
+   field has in the chosen (most recently arrived in-window) event of that source -- for every source and field,
+   whatever the event types are called (distinct source names; field names unique within an event, as in an IndexMap). *)
+Theorem C15_output_fields : forall c past a ch s e f v,
+    NoDup (sources c) -> spec_out c past a = Some ch -> In (s, e) ch ->
+    NoDup (map fst (jfields e)) -> In (f, v) (jfields e) ->
+    im_lookup (Some s, f) (snd (correlated c ch)) = Some v.
+Proof. exact output_fields. Qed.
+
 (* The garbage collector never removes more than what is out of every future window, and on in-order buffers the
    std binary search removes exactly the `< cutoff` prefix. *)
 Theorem C15_gc_exact_on_sorted : forall cutoff l,
